@@ -3,7 +3,7 @@
    [obs_eqb] compares them inside Coq (vm_compute).  No proofs depend on this file. *)
 From Coq Require Import List ZArith Bool.
 Import ListNotations.
-Open Scope Z_scope.
+Local Open Scope Z_scope.
 
 Inductive obs :=
 | OZ (z : Z)
